@@ -43,6 +43,84 @@ fn gix(name: &[u8], w: bool, h: bool, n: bool, s: bool) -> String {
     }
 }
 
+/// an in-memory object database holding literal trees
+#[derive(Default)]
+struct Mem {
+    objects: HashMap<gix_hash::ObjectId, (gix_object::Kind, Vec<u8>)>,
+}
+
+impl Mem {
+    fn insert(&mut self, kind: gix_object::Kind, data: Vec<u8>) -> gix_hash::ObjectId {
+        let id = gix_object::compute_hash(gix_hash::Kind::Sha1, kind, &data);
+        self.objects.insert(id, (kind, data));
+        id
+    }
+    /// a tree object with exactly the given raw entries (mode is written as given, not canonicalised)
+    fn tree(&mut self, entries: &[(u32, &[u8], gix_hash::ObjectId)]) -> gix_hash::ObjectId {
+        let mut data = Vec::new();
+        for (mode, name, id) in entries {
+            data.extend_from_slice(format!("{:o} ", mode).as_bytes());
+            data.extend_from_slice(name);
+            data.push(0);
+            data.extend_from_slice(id.as_bytes());
+        }
+        self.insert(gix_object::Kind::Tree, data)
+    }
+}
+
+impl gix_object::Find for Mem {
+    fn try_find<'a>(
+        &self,
+        id: &gix_hash::oid,
+        buffer: &'a mut Vec<u8>,
+    ) -> Result<Option<gix_object::Data<'a>>, gix_object::find::Error> {
+        Ok(self.objects.get(id).map(|(kind, data)| {
+            buffer.clear();
+            buffer.extend_from_slice(data);
+            gix_object::Data { kind: *kind, data: buffer }
+        }))
+    }
+}
+
+/// `gix_index::State::from_tree` on a tree whose only hostile entry is (mode, name), at the root or
+/// below the directory "d"; a tree-mode entry points to a tree with the single blob "x"
+fn from_tree(name: &[u8], mode: u32, depth: u32, w: bool, h: bool, n: bool) -> String {
+    let mut db = Mem::default();
+    let blob = db.insert(gix_object::Kind::Blob, b"hi\n".to_vec());
+    let target = if mode & 0o170000 == 0o040000 {
+        db.tree(&[(0o100644, b"x", blob)])
+    } else {
+        blob
+    };
+    let mut root = db.tree(&[(mode, name, target)]);
+    if depth == 1 {
+        root = db.tree(&[(0o040000, b"d", root)]);
+    }
+    match catch(|| gix_index::State::from_tree(&root, &db, opts(w, h, n)).map(|s| s.entries().len())) {
+        Ok(Ok(_)) => "ok".into(),
+        Ok(Err(gix_index::init::from_tree::Error::InvalidComponent { source, .. })) => format!("err:{}", kind(&source)),
+        Ok(Err(e)) => format!("err:other:{}", e.to_string().replace(['\n', '\t'], " ")),
+        Err(_) => "panic".into(),
+    }
+}
+
+/// `gix_worktree::Stack::at_entry(name, Some(mode))` configured for checkout: the validation in
+/// `StackDelegate::push`
+fn stack_push(stack: &mut gix_worktree::Stack, db: &Mem, name: &[u8], s: bool) -> String {
+    let mode = if s { gix_index::entry::Mode::SYMLINK } else { gix_index::entry::Mode::FILE };
+    // a path that is current already is not pushed (and not validated) again: move away first, as a
+    // checkout does when it goes from one index entry to the next
+    let _ = stack.at_entry(b"0".as_bstr(), Some(gix_index::entry::Mode::FILE), db);
+    match catch(std::panic::AssertUnwindSafe(|| stack.at_entry(name.as_bstr(), Some(mode), db).map(|_| ()))) {
+        Ok(Ok(())) => "ok".into(),
+        Ok(Err(e)) => match e.get_ref().and_then(|i| i.downcast_ref::<gix_validate::path::component::Error>()) {
+            Some(ce) => format!("err:{}", kind(ce)),
+            None => format!("err:other:{}", e.to_string().replace(['\n', '\t'], " ")),
+        },
+        Err(_) => "panic".into(),
+    }
+}
+
 fn b01(b: bool) -> &'static str {
     if b {
         "1"
@@ -174,6 +252,27 @@ impl Git {
                 }
             }
         }
+    }
+    /// `git read-tree` of a literal one-entry tree (written with `hash-object --literally`, so the
+    /// mode is stored as given): does git refuse to put (mode, name) into the index?
+    fn read_tree(&mut self, n: bool, h: bool, mode: u32, name: &[u8]) -> bool {
+        let mut data = format!("{:o} ", mode).into_bytes();
+        data.extend_from_slice(name);
+        data.push(0);
+        data.extend_from_slice(&unhex(&self.oid).expect("oid"));
+        let wt = self.wt();
+        let tree = git_ok(&wt, &["hash-object", "-t", "tree", "-w", "--stdin", "--literally"], Some(&data));
+        let _ = std::fs::remove_file(wt.join(".git/index"));
+        let pn = format!("core.protectNTFS={n}");
+        let ph = format!("core.protectHFS={h}");
+        let o = git(&wt, &["-c", &pn, "-c", &ph, "read-tree", &tree], None);
+        self.processes += 2;
+        self.direct += 1;
+        if !o.ok {
+            let err = String::from_utf8_lossy(&o.stderr);
+            assert!(err.contains("invalid path"), "git read-tree failed for another reason: {err}");
+        }
+        o.ok
     }
     fn get(&self, n: bool, h: bool, s: bool, p: &[u8]) -> Option<bool> {
         self.cache.get(&(n, h, s, p.to_vec())).copied()
@@ -383,6 +482,19 @@ fn valid_prefix(n: &[u8]) -> &[u8] {
     &n[..end]
 }
 
+/// is a "git refuses, gitoxide accepts" case one of the two recorded families? (decided with git's
+/// own verdicts, independently of the model)
+fn classify(git: &Git, name: &[u8], w: bool, h: bool, n: bool, s: bool) -> Option<String> {
+    let replaced: Vec<u8> = name.iter().map(|b| if *b == b'\\' { b'x' } else { *b }).collect();
+    if !w && n && name.contains(&b'\\') && git.get(n, h, s, &replaced) == Some(true) {
+        Some("ntfs-backslash-separator".to_string())
+    } else if h && !strictly_valid_utf8(name) && gix(valid_prefix(name), w, h, n, s) != "ok" {
+        Some("hfs-malformed-utf8-terminator".to_string())
+    } else {
+        None
+    }
+}
+
 fn main() {
     let args = Args::parse();
     let mut rep = Report::new("C40", &args);
@@ -452,6 +564,23 @@ fn main() {
         "git processes: {} ({} verdicts from `update-index --add --cacheinfo`, {} from `update-index -z --stdin` batches)",
         git.processes, git.direct, git.batched
     ));
+    // git's own view of non-canonical entry modes: a literal tree read into the index
+    for (mode, name, n, h) in [
+        (0o120777u32, &b".gitmodules"[..], false, false),
+        (0o120644, b".gitmodules", false, false),
+        (0o100664, b".gitmodules", false, false),
+        (0o120777, b".GITMODULES", true, true),
+        (0o120644, b"gitmod~1", true, false),
+        (0o120777, b"x", true, true),
+        (0o100755, b".git", false, false),
+    ] {
+        let acc = git.read_tree(n, h, mode, name);
+        rep.case(
+            &format!("gittree {} {} {:o} {}", b01(n), b01(h), mode, hex(name)),
+            if acc { "accept" } else { "refuse" },
+            true,
+        );
+    }
     // tie of the Lean transcription of verify_path to the git binary
     let mut cached: Vec<(&(bool, bool, bool, Vec<u8>), &bool)> = git.cache.iter().collect();
     cached.sort();
@@ -464,6 +593,22 @@ fn main() {
     }
 
     // ---- the real code and the property ------------------------------------------------------
+    let empty_db = Mem::default();
+    let empty_index = gix_index::State::new(gix_hash::Kind::Sha1);
+    let stack_root = git.scratch.join("stack-root");
+    std::fs::create_dir_all(&stack_root).expect("stack root");
+    let mut stacks: Vec<gix_worktree::Stack> = (0..8)
+        .map(|i| {
+            gix_worktree::Stack::from_state_and_ignore_case(
+                stack_root.clone(),
+                false,
+                gix_worktree::stack::State::for_checkout(false, opts(i & 1 != 0, i & 2 != 0, i & 4 != 0), Default::default()),
+                &empty_index,
+                empty_index.path_backing(),
+            )
+        })
+        .collect();
+    let mut name_index = 0usize;
     for (name, bucket) in &names {
         let hx = hex(name);
         rep.bucket(bucket);
@@ -499,16 +644,7 @@ fn main() {
                             continue;
                         }
                         // git refuses, gitoxide accepts: which family?
-                        let replaced: Vec<u8> = name.iter().map(|b| if *b == b'\\' { b'x' } else { *b }).collect();
-                        let key = if name == b"." || name == b".." {
-                            format!("accepted:{hx}")
-                        } else if !w && n && name.contains(&b'\\') && git.get(n, h, s, &replaced) == Some(true) {
-                            "ntfs-backslash-separator".to_string()
-                        } else if h && !strictly_valid_utf8(name) && gix(valid_prefix(name), w, h, n, s) != "ok" {
-                            "hfs-malformed-utf8-terminator".to_string()
-                        } else {
-                            format!("accepted:{hx}")
-                        };
+                        let key = classify(&git, name, w, h, n, s).unwrap_or_else(|| format!("accepted:{hx}"));
                         rep.oracle_failure(
                             &key,
                             &format!(
@@ -518,6 +654,76 @@ fn main() {
                             ),
                             &format!("component {} {} {} {} {hx}", b01(w), b01(h), b01(n), b01(s)),
                         );
+                    }
+                }
+            }
+        }
+        // ---- the callers that choose the mode: index-from-tree and the checkout stack ----------
+        if !name.is_empty() && !name.contains(&0) && !name.contains(&b'/') {
+            name_index += 1;
+            const LINKS: [u32; 3] = [0o120000, 0o120777, 0o120644];
+            const OTHERS: [u32; 8] = [0o100644, 0o100755, 0o100664, 0o100600, 0o160000, 0o040000, 0o140000, 0o100777];
+            // the first corpus names (the ".git"/".gitmodules"/short-name seeds with every suffix) meet every
+            // mode at both depths; later names a rotating selection that always contains a link mode
+            let full = name_index <= 400;
+            let modes: Vec<u32> = if full {
+                LINKS.iter().chain(OTHERS.iter()).copied().collect()
+            } else {
+                vec![LINKS[name_index % 3], OTHERS[name_index % 8], OTHERS[(name_index / 8 + 3) % 8]]
+            };
+            let depths: Vec<u32> = if full { vec![0, 1] } else { vec![(name_index % 2) as u32] };
+            for (mode, depth) in modes.iter().flat_map(|m| depths.iter().map(move |d| (*m, *d))) {
+                let s = mode & 0o170000 == 0o120000; // git's S_ISLNK
+                for n in [false, true] {
+                    for h in [false, true] {
+                        for w in [false, true] {
+                            let op = format!("fromtree {} {} {} {depth} {:o} {hx}", b01(w), b01(h), b01(n), mode);
+                            let o = from_tree(name, mode, depth, w, h, n);
+                            rep.case(&op, &o, true);
+                            rep.bucket(if o == "ok" { "from_tree:ok" } else { "from_tree:refused" });
+                            if o == "panic" || o.starts_with("err:other") {
+                                rep.oracle_failure(&format!("from-tree-broken:{:o}:{hx}", mode), &format!("State::from_tree -> {o}"), &op);
+                            }
+                            if o == "ok" && git.get(n, h, s, name) == Some(false) {
+                                rep.oracle_checked();
+                                let key = classify(&git, name, w, h, n, s).unwrap_or_else(|| format!("from-tree-accepted:{:o}:{hx}", mode));
+                                rep.oracle_failure(
+                                    &key,
+                                    &format!(
+                                        "git (core.protectNTFS={n} core.protectHFS={h}) refuses the tree entry {:o} {:?} but State::from_tree(protect_windows={w}, protect_hfs={h}, protect_ntfs={n}) builds an index with it",
+                                        mode,
+                                        name.as_bstr()
+                                    ),
+                                    &op,
+                                );
+                            }
+                        }
+                    }
+                }
+            }
+            if name != b"." && name != b".." {
+                for s in [false, true] {
+                    for (i, stack) in stacks.iter_mut().enumerate() {
+                        let (w, h, n) = (i & 1 != 0, i & 2 != 0, i & 4 != 0);
+                        let op = format!("stack {} {} {} {} {hx}", b01(w), b01(h), b01(n), b01(s));
+                        let o = stack_push(stack, &empty_db, name, s);
+                        rep.case(&op, &o, true);
+                        if o == "panic" || o.starts_with("err:other") {
+                            rep.oracle_failure(&format!("stack-broken:{hx}"), &format!("Stack::at_entry -> {o}"), &op);
+                        }
+                        if o == "ok" && git.get(n, h, s, name) == Some(false) {
+                            rep.oracle_checked();
+                            let key = classify(&git, name, w, h, n, s).unwrap_or_else(|| format!("stack-accepted:{hx}"));
+                            rep.oracle_failure(
+                                &key,
+                                &format!(
+                                    "git (core.protectNTFS={n} core.protectHFS={h}, {}) refuses {:?} but the checkout stack (protect_windows={w}, protect_hfs={h}, protect_ntfs={n}) accepts it",
+                                    if s { "symlink" } else { "regular file" },
+                                    name.as_bstr()
+                                ),
+                                &op,
+                            );
+                        }
                     }
                 }
             }
